@@ -175,10 +175,18 @@ func stdSeqHasSuffix(_ context.Context, suffix, subject rel.Value) (rel.Value, e
 }
 
 func stdSeqRepeat(_ context.Context, arg rel.Value) (rel.Value, error) {
-	n := int(arg.(rel.Number))
+	count, is := arg.(rel.Number)
+	if !is {
+		return nil, fmt.Errorf("//seq.repeat: count not a number: %v", arg)
+	}
+	n := int(count)
 	return rel.NewNativeFunction("repeat(n)", func(_ context.Context, arg rel.Value) (rel.Value, error) {
 		switch seq := arg.(type) {
 		case rel.String:
+			if n < 0 {
+				// as for arrays: a negative count repeats nothing
+				return rel.None, nil
+			}
 			return rel.NewString([]rune(strings.Repeat(seq.String(), n))), nil
 		case rel.Array:
 			values := []rel.Value{}
